@@ -19,6 +19,7 @@ import (
 	"google.golang.org/protobuf/reflect/protoregistry"
 	"google.golang.org/protobuf/types/descriptorpb"
 	"google.golang.org/protobuf/types/dynamicpb"
+	"google.golang.org/protobuf/types/known/anypb"
 	"google.golang.org/protobuf/types/known/durationpb"
 	"google.golang.org/protobuf/types/known/emptypb"
 	"google.golang.org/protobuf/types/known/fieldmaskpb"
@@ -174,6 +175,7 @@ var wktFiles = []protoreflect.FileDescriptor{
 	timestamppb.File_google_protobuf_timestamp_proto, durationpb.File_google_protobuf_duration_proto,
 	wrapperspb.File_google_protobuf_wrappers_proto, fieldmaskpb.File_google_protobuf_field_mask_proto,
 	structpb.File_google_protobuf_struct_proto, emptypb.File_google_protobuf_empty_proto,
+	anypb.File_google_protobuf_any_proto,
 }
 
 func typeRef(pkg, name string) string {
